@@ -280,7 +280,14 @@ class _DiffRef(RefEvaluator):
     def ev(self, e):
         if type(e) is p.Power and walk.variables(e.exponent):
             a, b = self.strict([e.base, e.exponent])
-            if not split(a)[0] > 0:
+            bv = split(a)[0]
+            if isinstance(bv, complex):
+                raise DomainSkip("complex-base")
+            try:
+                positive = bool(bv > 0)
+            except TypeError:
+                raise DomainSkip("non-numeric-base") from None
+            if not positive:
                 raise DomainSkip("nonpositive-base")
             return _apply(_pow, a, b)
         return RefEvaluator.ev(self, e)
@@ -569,23 +576,25 @@ def _has_log_of_int_constant(spec):
     return False
 
 
-def _has_power_with_cse_constant_exponent(spec):
-    """A Power whose exponent contains no variable but a CommonSubexpression."""
+def _has_power_with_wrapped_constant_exponent(spec):
+    """A Power whose exponent contains no variable but a CommonSubexpression
+    or an If (whose derivative is the truthy node CSE(0) / If(c, 0, 0))."""
     for s in subspecs(spec.get("expr")):
         if s[0] == "Power" and len(s) == 3:
             inner = subspecs(s[2])
-            if any(t[0] == "CommonSubexpression" for t in inner) and not any(
+            if any(t[0] in ("CommonSubexpression", "If") for t in inner) and not any(
                     t[0] in ("Var", "Subscript") for t in inner):
                 return True
     return False
 
 
 KNOWN = {
-    # the derivative of CSE(<constant>) is CSE(0), which is truthy: the power
-    # rule misses its zero-derivative short cut and emits log(base)
-    "F-C10-cse-const": lambda sub, spec, fail: (
+    # the derivative of CSE(<constant>) is CSE(0) (of If(c, 2, 3): If(c, 0, 0)),
+    # which is truthy: the power rule misses its zero-derivative short cut and
+    # emits log(base)
+    "F-C10-truthy-zero": lambda sub, spec, fail: (
         fail.kind.startswith("derivative-eval-error:")
-        and _has_power_with_cse_constant_exponent(spec)),
+        and _has_power_with_wrapped_constant_exponent(spec)),
     # copysign(u, v) with u depending on the variable is differentiated to 0
     "F24": lambda sub, spec, fail: (
         fail.kind == "derivative-mismatch:call:copysign"
@@ -933,7 +942,7 @@ def generate(ctx):
                                    "points": _grid_points(exact)})
                 n += 1
     ctx.exhaustive["two-operand constructs x operand pool x variable x setting"] = n
-    ctx.run_given(diff_case(), lambda s: ctx.judge("diff", s), ctx.n(40000, 2400000))
+    ctx.run_given(diff_case(), lambda s: ctx.judge("diff", s), ctx.n(40000, 1600000))
 
 # }}}
 
